@@ -32,6 +32,8 @@ def FrameOK (l : CL) (SL : SList) (b : Nat) (m cap : Nat) (rest : List Entry) : 
     cap ≤ l.cur ∧
     ((if R = [] then S.tail else S).filter (fun n => decide ((l.heap n).counter ≤ cap)))
       = ((rest.filter (fun e => SL.present e.id)).map (·.id)) ∧
-    (∀ e ∈ rest, SL.present e.id → e ∈ SL)
+    (∀ e ∈ rest, SL.present e.id → e ∈ SL) ∧
+    -- every snapshot entry was allocated before now (so a later fresh id never revives one)
+    (∀ e ∈ rest, e.id < b)
 
 end Evp
